@@ -233,12 +233,15 @@ func c19ConnsGen(g *hx.Gen) {
 		}
 	}
 	// what a peer that goes away has sent: k bytes of a record, k = 1 … len-1
-	partials := func(a []byte) [][]byte {
+	partials := func(a []byte, headers bool) [][]byte {
 		var ps [][]byte
 		for k := 1; k < len(a); k++ {
 			if k <= 12 || k%17 == 0 || k == len(a)-1 {
 				ps = append(ps, a[:k])
 			}
+		}
+		if !headers {
+			return ps
 		}
 		// a whole header that announces a short / long message, nothing or little behind it
 		for _, n := range []int{0, 1, 40, 48, 200, 512, 65535} {
@@ -256,7 +259,7 @@ func c19ConnsGen(g *hx.Gen) {
 			if !g.Thorough() && ai != bi && ai+bi != len(records)-1 && bi != 0 {
 				continue
 			}
-			for _, p := range partials(a) {
+			for _, p := range partials(a, ai == 0) {
 				for di, d := range deliveries(b) {
 					if !g.Thorough() && di > 1 && len(p) > 6 && len(p)%3 != 0 {
 						continue
